@@ -159,6 +159,15 @@ pub struct Amount {
     pub(crate) units: Option<String>,
 }
 
+/// Verification hook: build an [`Amount`] (its fields are crate-private) to exercise
+/// the combine functions with hand-made lists.
+#[cfg(cooklang_cooklang_rs_verif)]
+impl Amount {
+    pub fn verif_new(quantity: Value, units: Option<String>) -> Self {
+        Self { quantity, units }
+    }
+}
+
 #[derive(uniffi::Enum, Debug, Clone, PartialEq)]
 pub enum Value {
     Number { value: f64 },
